@@ -29,6 +29,7 @@ WRONG12 = {
     "tuple": [("scalar", "x"), ("list", [1, 2])],
     "path_in": [("missing-file", "nofile.csv"), ("relative-no-wd", "in.csv")],
     "path_out": [("relative-no-wd", "out2.csv")],
+    "string": [("list", ["a", "b"]), ("tuple", {"K": "v"})],
 }
 # kinds that only the chaos mode uses (the statement of C12 does not list them)
 WRONG13_EXTRA = {
@@ -42,7 +43,7 @@ WRONG13_EXTRA = {
     "tuple": [("number", 5), ("nested-list", [[1]]), ("float", 0.5)],
     "path_in": [("number", 5), ("list", ["in.csv"]), ("tuple", {"K": "v"}), ("float", 0.5)],
     "path_out": [("number", 5), ("list", ["out.csv"]), ("tuple", {"K": "v"})],
-    "string": [("list", ["a", "b"]), ("tuple", {"K": "v"}), ("nested-list", [["a"]]), ("number", 5)],
+    "string": [("nested-list", [["a"]]), ("number", 5)],
 }
 
 
@@ -62,6 +63,11 @@ def build_matrix(extended=False):
                 kinds += WRONG13_EXTRA.get(p["kind"], [])
             for label, val in kinds:
                 cells.append({"kind": "wrong-kind", "cmd": cmd, "param": pname, "pkind": p["kind"], "label": label,
+                              "value": val})
+            if WRONG12.get(p["kind"]) and WRONG12[p["kind"]][0][0] not in ("missing-file", "relative-no-wd", "unknown"):
+                # the parameter is given twice: once with a value of the wrong kind, once properly
+                label, val = WRONG12[p["kind"]][0]
+                cells.append({"kind": "duplicate-param", "cmd": cmd, "param": pname, "pkind": p["kind"], "label": label,
                               "value": val})
             if p["kind"] in ("result", "results") and p.get("data", True):
                 cells.append({"kind": "wrong-output-kind", "cmd": cmd, "param": pname, "producer": "pv"})
@@ -169,7 +175,11 @@ def concretise(rng, model, cell):
         if cell["param"] not in tgt["args"]:
             return None
         f["param"] = cell["param"]
-    elif cell["kind"] == "wrong-kind":
+    elif cell["kind"] in ("wrong-kind", "duplicate-param"):
+        if cell["kind"] == "duplicate-param":
+            if cell["param"] not in tgt["args"]:
+                return None
+            f["first"] = rng.random() < 0.7      # the wrong one comes first (and is the one a last-wins reading drops)
         f["param"] = cell["param"]
         f["pkind"] = cell["pkind"]
         f["label"] = cell["label"]
@@ -264,6 +274,13 @@ def apply_fault(nodes, fault):
     elif kind == "wrong-kind":
         setarg(fault["param"], copy.deepcopy(fault["value"]))
         info["line_of"] = "arg:" + fault["param"]
+    elif kind == "duplicate-param":
+        pos = next((i for i, a in enumerate(node["args"]) if a[0] == fault["param"]), None)
+        if pos is None:
+            return {"inapplicable": True}
+        extra = [fault["param"], copy.deepcopy(fault["value"])]
+        node["args"].insert(pos if fault.get("first", True) else pos + 1, extra)
+        info["line_of"] = "within"
     elif kind in ("wrong-output-kind", "fuzzy-swap"):
         cur = getarg(fault["param"])
         if isinstance(cur, list):
@@ -305,6 +322,10 @@ def expected_errors(fault):
         if fault["producer_fuzzy"]:
             return [("ResultIsFuzzy", {"result": fault["producer"]})]
         return [("ResultNotFuzzy", {"result": fault["producer"]})]
+    if k == "duplicate-param":
+        # how it is reported is open (the repeated name, or the value of the wrong kind) as long as it is a located
+        # MPilot error that names the parameter or the value
+        return [("ProgramError", {"str~": fault["param"]}), ("ParameterNotValid", {})]
     if k == "wrong-kind":
         lab = fault["label"]
         v = fault["value"]
@@ -334,7 +355,10 @@ def check_expected(exc, fault):
             continue
         bad = None
         for a, want in attrs.items():
-            if a.endswith("~"):
+            if a == "str~":
+                if want not in str(exc):
+                    bad = "message does not mention %r" % (want,)
+            elif a.endswith("~"):
                 got = getattr(exc, a[:-1], None)
                 try:
                     ok = want in got
